@@ -117,6 +117,10 @@ impl<T: PayloadEncode> WireEncode for ScionPacket<T> {
     fn wire_valid(&self) -> Result<(), InvalidStructureError> {
         self.header.wire_valid()?;
         self.payload.wire_valid()?;
+        // The payload length is a 16 bit field in the common header
+        if self.payload.required_size(self.header.required_size()) > u16::MAX as usize {
+            return Err("payload size exceeds the maximum of 65535 bytes".into());
+        }
         Ok(())
     }
 
